@@ -12,7 +12,12 @@ Open Scope Z_scope.
 
 (* ------------------------------------------------------------------ values *)
 Inductive elem :=
-| ENull | EBool (b : bool) | EInt (z : Z) | EStr (s : string) | EArr (l : list elem).
+| ENull | EBool (b : bool) | EInt (z : Z) | EStr (s : string) | EArr (l : list elem)
+| EAtom (id : nat) (text : string) (t : bool).
+(* EAtom: a float or an object element.  The methods use only three things of such an element:
+   its identity/value for indexOf/includes (id: equal floats get equal ids, an object keeps its id),
+   its AsString text for join and sort (text), its truthiness when a callback returns it (t).
+   Atoms in index-argument positions are not modelled (a float there would be truncated). *)
 
 Definition itoa (z : Z) : string := NilZero.string_of_int (Z.to_int z).
 Definition sjoin (sep : string) (l : list string) : string :=
@@ -28,6 +33,7 @@ Fixpoint estr (e : elem) : string :=
   | EInt z => itoa z
   | EStr s => s
   | EArr l => ("[" ++ sjoin ", " (map estr l) ++ "]")%string
+  | EAtom _ text _ => text
   end.
 (* v.(AsInt): null (0) and ints; strings, bools, arrays do not implement data.AsInt *)
 Definition as_int (e : elem) : option Z :=
@@ -37,6 +43,7 @@ Definition truthy (e : elem) : bool :=
   match e with
   | ENull => false | EBool b => b | EInt z => negb (z =? 0) | EStr s => negb (String.eqb s "")
   | EArr l => match l with [] => false | _ => true end
+  | EAtom _ _ t => t
   end.
 Definition is_null (e : elem) : bool := match e with ENull => true | _ => false end.
 
@@ -153,6 +160,7 @@ Definition elem_equals (a b : elem) : bool :=
   | EStr x, EStr y => String.eqb x y
   | EBool x, EBool y => Bool.eqb x y
   | ENull, ENull => true
+  | EAtom a _ _, EAtom b _ _ => Nat.eqb a b
   | _, _ => false
   end.
 Fixpoint find_elem (s : elem) (i : Z) (l : list elem) : Z :=
